@@ -2,7 +2,7 @@
 # tools/runall.sh [quick|thorough] [ids...]: runs the registered checks and prints one line each
 tier=${1:-quick}; shift
 ids="$@"; [ -z "$ids" ] && ids="C01 C02 C03 C04 C05 C06 C07 C08 C09 C10 C11 C12 C13 C14 C15 C16 C17"
-cd /verif
+cd "${VERIF_DIR:-/verif}"
 for c in $ids; do
   s=$(date +%s)
   out=$(./check $c $tier 2>&1); rc=$?
